@@ -20,6 +20,29 @@ pub fn set_observer(o: Option<SysObserver>) {
     *g = o;
 }
 
+pub type PreHook = Arc<dyn Fn(&str, &str) + Send + Sync>;
+static PRE: RwLock<Option<PreHook>> = RwLock::new(None);
+static PRE_ON: AtomicBool = AtomicBool::new(false);
+
+/// A hook that runs before an interposed call is forwarded (may block: forced schedules).
+pub fn set_pre_hook(h: Option<PreHook>) {
+    let mut g = PRE.write().unwrap();
+    PRE_ON.store(h.is_some(), Ordering::SeqCst);
+    *g = h;
+}
+
+fn pre(call: &str, fd: i32) {
+    if PRE_ON.load(Ordering::Relaxed) && !BUSY.with(|b| b.get()) {
+        let h = PRE.read().unwrap().clone();
+        if let Some(h) = h {
+            let prev = BUSY.with(|b| b.replace(true));
+            let name = fd_name(fd);
+            BUSY.with(|b| b.set(prev));
+            h(call, &name);
+        }
+    }
+}
+
 /// errno to inject into the next calls: (call name, remaining successful calls, errno)
 static FAIL: RwLock<Option<(String, i64, i32)>> = RwLock::new(None);
 
@@ -81,6 +104,14 @@ fn report(call: &str, name: String, ret: i64) {
     }
 }
 
+/// Run harness-internal file operations (image copies, damage injection) unobserved.
+pub fn quiet<R>(f: impl FnOnce() -> R) -> R {
+    let prev = BUSY.with(|b| b.replace(true));
+    let r = f();
+    BUSY.with(|b| b.set(prev));
+    r
+}
+
 fn watching() -> bool {
     ON.load(Ordering::Relaxed) && !BUSY.with(|b| b.get())
 }
@@ -91,6 +122,7 @@ unsafe fn set_errno(e: i32) {
 
 #[no_mangle]
 pub unsafe extern "C" fn fdatasync(fd: i32) -> i32 {
+    pre("fdatasync", fd);
     if watching() {
         if let Some(e) = should_fail("fdatasync") {
             set_errno(e);
